@@ -9,6 +9,7 @@ import (
 	"sort"
 
 	"github.com/emitter-io/emitter/internal/event"
+	"github.com/emitter-io/emitter/internal/service/cluster"
 	"github.com/emitter-io/emitter/internal/event/crdt"
 	"github.com/emitter-io/emitter/internal/zzverif/vlib"
 	"github.com/weaveworks/mesh"
@@ -327,41 +328,46 @@ func banHistory(steps int) (string, map[string]interface{}) {
 
 func senderCase() (string, map[string]interface{}) {
 	r := cfg.Rng
-	n := 1 + r.Intn(4)
+	n := 1 + r.Intn(5)
 	v := mesh.NewVerifSender()
+	// the broker's own (durable) state: every delta it relays was merged into it first, every
+	// operation it broadcasts was applied to it first
+	live := newReplica(true, "")
 	var ps []string
-	var live []*event.State
 	kinds := []string{}
 	panicked := false
 	for i := 0; i < n && !panicked; i++ {
-		durable := r.Intn(6) == 0
-		st := newReplica(durable, "")
-		live = append(live, st)
-		for e := 0; e < 1+r.Intn(3); e++ {
-			k := universe[r.Intn(len(universe))]
-			setClock(pickTime())
-			if r.Intn(3) == 0 {
-				st.Del(k.mk(0))
-			} else {
-				st.Add(k.mk(r.Intn(2)))
+		switch r.Intn(5) {
+		case 0: // periodic gossip: the complete state
+			kinds = append(kinds, "full")
+			ps = append(ps, vlib.Pair("true", "[]"))
+			p, _ := vlib.Catch(func() { v.Send(cluster.VerifPayload(live, true)) })
+			panicked = panicked || p
+		default: // a delta: what OnGossip hands back after merging a received payload, or an own operation
+			st := newReplica(false, "")
+			for e := 0; e < 1+r.Intn(3); e++ {
+				k := universe[r.Intn(len(universe))]
+				setClock(pickTime())
+				if r.Intn(3) == 0 {
+					st.Del(k.mk(0))
+				} else {
+					st.Add(k.mk(r.Intn(2)))
+				}
 			}
-		}
-		var data *event.State = st
-		if !durable { // what OnGossip hands back to mesh is a decoded (volatile) state
-			d, err := event.DecodeState(st.Encode()[0])
+			x, err := event.DecodeState(st.Encode()[0])
 			if err != nil {
 				panic(err)
 			}
-			data = d
+			if live.Merge(x) == nil {
+				kinds = append(kinds, "nothing-new")
+				continue // nothing new: nothing is relayed
+			}
+			kinds = append(kinds, "delta")
+			ps = append(ps, vlib.Pair("false", dumpTerm(x)))
+			p, _ := vlib.Catch(func() { v.Send(cluster.VerifPayload(x, false)) })
+			panicked = panicked || p
+			st.Close()
 		}
-		ps = append(ps, vlib.Pair(vlib.Bool(durable), dumpTerm(data)))
-		if durable {
-			kinds = append(kinds, "durable")
-		} else {
-			kinds = append(kinds, "volatile")
-		}
-		p, _ := vlib.Catch(func() { v.Send(data) })
-		panicked = panicked || p
 	}
 	var sent []string
 	if !panicked {
@@ -376,10 +382,9 @@ func senderCase() (string, map[string]interface{}) {
 		})
 		panicked = panicked || p
 	}
-	for _, st := range live {
-		st.Close()
-	}
-	return vlib.App("CSender", vlib.List(ps), vlib.List(sent), vlib.Bool(panicked)),
+	liveDump := dumpTerm(live)
+	live.Close()
+	return vlib.App("CSender", vlib.List(ps), liveDump, vlib.List(sent), vlib.Bool(panicked)),
 		map[string]interface{}{"op": "gossipSender", "payloads": kinds, "sent": len(sent), "panicked": panicked}
 }
 
